@@ -14,6 +14,8 @@ pub mod rvalue;
 pub mod refsem;
 pub mod judge;
 pub mod gen01;
+pub mod rewrite;
+pub mod gen06;
 
 pub use outcome::*;
 pub use report::*;
